@@ -1141,6 +1141,30 @@ fn families(ctx: &Ctx, sink: Sink) {
                     for (i, c) in cands.iter().enumerate() {
                         add_trans(&mut d, c, Some(&format!("t{}", i)), None, "");
                     }
+                    // the parent's own initial specification targets its history child (attribute form and
+                    // <initial> element with content): on the first entry the history default content runs after
+                    // the initial-transition content; later entries restore what was recorded
+                    if count_states(&f) <= if thorough { 4 } else { 3 } {
+                        let h = d.nodes.iter().position(|n| n.kind.is_history()).unwrap();
+                        let hp = d.nodes[h].parent.unwrap();
+                        let mut da = d.clone();
+                        da.nodes[hp].initial_attr = Some(vec![h]);
+                        sink(Item {
+                            label: format!("history {:?} {} initial-attr->history", shape_str(&f), hl),
+                            doc: da,
+                            opts: o.clone(),
+                            sig_hint: String::new(),
+                        });
+                        let mut de = d.clone();
+                        let pn = de.nodes[hp].name.clone();
+                        de.nodes[hp].initial_elem = Some((vec![h], vec![Stmt::Mark(vec!["init".into(), pn])]));
+                        sink(Item {
+                            label: format!("history {:?} {} initial-elem->history", shape_str(&f), hl),
+                            doc: de,
+                            opts: o.clone(),
+                            sig_hint: String::new(),
+                        });
+                    }
                     sink(Item {
                         label: format!("history {:?} {}", shape_str(&f), hl),
                         doc: d,
